@@ -78,6 +78,33 @@ def bases(mido):
     out.append(('UnknownMetaMessage',
                 lambda: mido.UnknownMetaMessage(0x60, data=(1, 2), time=5),
                 'data', (9,), None))
+    # payloads at and beyond sizes where caches/bulk paths switch on
+    for n in (255, 256, 300, 1100):
+        big = tuple((i * 3) & 0x7F for i in range(n))
+        out.append((f'Message:sysex[{n}]',
+                    lambda b=big: mido.Message('sysex', data=b, time=2),
+                    'data', big[:-1] + (5,), big[:-1] + (128,)))
+    big = tuple(i & 0xFF for i in range(300))
+    out.append(('MetaMessage:sequencer_specific[300]',
+                lambda b=big: mido.MetaMessage('sequencer_specific', data=b),
+                'data', big[1:], big[:-1] + (256,)))
+    out.append(('UnknownMetaMessage[300]',
+                lambda b=big: mido.UnknownMetaMessage(0x61, data=b, time=1),
+                'data', big[1:], None))
+    out.append(('MetaMessage:text[3000]',
+                lambda: mido.MetaMessage('text', text='ab c' * 750),
+                'text', 'ab c' * 749, 5))
+    # every attribute at its default
+    out.append(('Message:note_on[defaults]', lambda: mido.Message('note_on'),
+                'channel', 9, 16))
+    out.append(('Message:control_change[defaults]',
+                lambda: mido.Message('control_change'), 'channel', 15, 16))
+    out.append(('MetaMessage:set_tempo[default]',
+                lambda: mido.MetaMessage('set_tempo'), 'tempo', 500001,
+                2 ** 24))
+    out.append(('MetaMessage:time_signature[defaults]',
+                lambda: mido.MetaMessage('time_signature'), 'numerator', 3,
+                256))
     return out
 
 
@@ -106,7 +133,7 @@ def norm_vars(d):
 def make_search(mido, base, depth):
     label, factory, first, alt, bad = base
     from mido.frozen import freeze_message, thaw_message
-    is_unknown = label == 'UnknownMetaMessage'
+    is_unknown = label.startswith('UnknownMetaMessage')
 
     overrides = [(('time', 3),)]
     if first is not None:
@@ -165,7 +192,7 @@ def make_search(mido, base, depth):
                 out.append(('set', i, k))
             out.append(('del', i))
             out.append(('hash', i))
-            if label == 'Message:sysex':
+            if label.startswith('Message:sysex'):
                 out.append(('iadd', i))
             for j in range(n):
                 if i < j:
